@@ -381,3 +381,14 @@ Theorem C15_propm_agree_implies_spec_ok : forall m o,
   propm_obs_agrees m o = true -> propm_obs_spec_ok m o = true.
 Proof. exact propm_agree_implies_spec_ok. Qed.
 Print Assumptions C15_propm_agree_implies_spec_ok.
+
+(** Which of several propstats carrying the same property name decides is not
+    part of the statement; the specification verdict of the container stage
+    accepts the reading of the code ([select_propstat]: the first that has the
+    property) and the reading "first successful" ([select_propstat_alt]).  They
+    give the same value whenever the first propstat that has the property is a
+    successful one, in particular when the name occurs once. *)
+Theorem C15_propstat_readings_agree : forall ps n v,
+  select_propstat ps n = Ok v -> forall f, select_propstat_alt ps n f = Ok v.
+Proof. exact select_propstat_alt_same. Qed.
+Print Assumptions C15_propstat_readings_agree.
